@@ -268,6 +268,9 @@ impl ser::SerializeStructVariant for VariantStructS {
 
 /// (path with indices replaced by `[]`, class, precise path with indices)
 pub struct Diff {
+    /// innermost struct type that owns the differing field, and the path relative to it
+    pub owner: String,
+    pub rel: String,
     pub path: String,
     pub class: &'static str,
     pub at: String,
@@ -275,7 +278,8 @@ pub struct Diff {
     pub reread: Value,
 }
 
-fn brief(v: &Value) -> Value {
+/// shortened rendering for messages
+pub fn brief(v: &Value) -> Value {
     let s = v.to_string();
     if s.len() > 300 {
         json!(format!("{}…", &s[..s.char_indices().take_while(|(i, _)| *i < 300).last().map(|(i, c)| i + c.len_utf8()).unwrap_or(0)]))
@@ -286,15 +290,56 @@ fn brief(v: &Value) -> Value {
 
 /// `tolerate_longer(struct, field)` = the field is a whole-remainder array: the re-read array may be
 /// longer than the written one as long as the written prefix is intact.
+/// what `tolerate(struct, field)` may answer
+pub const TOL_NONE: u8 = 0;
+/// whole-remainder array: re-read may be longer, written prefix must be intact
+pub const TOL_REMAINDER: u8 = 1;
+/// hint field: when written as `None` ("infer") the re-read value is not compared
+pub const TOL_HINT_WHEN_NONE: u8 = 2;
+
+/// `tolerated` = (remainder arrays accepted on their prefix, hint fields skipped)
 pub fn first_diff(
     a: &Value,
     b: &Value,
-    tolerate_longer: &dyn Fn(&str, &str) -> bool,
-    tolerated: &mut u64,
+    tolerate_longer: &dyn Fn(&str, &str) -> u8,
+    tolerated: &mut (u64, u64),
 ) -> Option<Diff> {
     let mut path = String::new();
     let mut at = String::new();
-    diff_rec(a, b, &mut path, &mut at, tolerate_longer, tolerated, false)
+    let mut d = diff_rec(a, b, &mut path, &mut at, tolerate_longer, tolerated, TOL_NONE)?;
+    // innermost owner: walk the written value along the precise path and remember the last `$t`
+    let mut owner = a.get("$t").and_then(|x| x.as_str()).unwrap_or("").to_string();
+    let mut rel_start = 0usize;
+    let mut cur = a;
+    let segs: Vec<&str> = d.at.split('.').filter(|s| !s.is_empty()).collect();
+    let generic: Vec<&str> = d.path.split('.').filter(|s| !s.is_empty()).collect();
+    for (si, seg) in segs.iter().enumerate() {
+        // seg is `name`, `name[i][j]`, or `<Variant>`
+        let mut next = cur;
+        if seg.starts_with('<') {
+            next = &cur["$c"];
+        } else {
+            let name = seg.split('[').next().unwrap_or("");
+            next = &next[name];
+            for idx in seg.split('[').skip(1) {
+                let i: usize = idx.trim_end_matches(']').parse().unwrap_or(0);
+                next = &next[i];
+            }
+        }
+        if next.is_null() && si + 1 < segs.len() {
+            break;
+        }
+        cur = next;
+        if si + 1 < segs.len() {
+            if let Some(t) = cur.get("$t").and_then(|x| x.as_str()) {
+                owner = t.to_string();
+                rel_start = si + 1;
+            }
+        }
+    }
+    d.owner = owner;
+    d.rel = generic[rel_start.min(generic.len())..].join(".");
+    Some(d)
 }
 
 fn diff_rec(
@@ -302,16 +347,25 @@ fn diff_rec(
     b: &Value,
     path: &mut String,
     at: &mut String,
-    tol: &dyn Fn(&str, &str) -> bool,
-    tolerated: &mut u64,
-    remainder_field: bool,
+    tol: &dyn Fn(&str, &str) -> u8,
+    tolerated: &mut (u64, u64),
+    field_tolerance: u8,
 ) -> Option<Diff> {
+    if field_tolerance == TOL_HINT_WHEN_NONE && a.is_null() {
+        if !b.is_null() {
+            tolerated.1 += 1;
+        }
+        return None;
+    }
+    let remainder_field = field_tolerance == TOL_REMAINDER;
     let mk = |class: &'static str, path: &str, at: &str| Diff {
+        owner: String::new(),
+        rel: String::new(),
         path: path.trim_start_matches('.').to_string(),
         class,
         at: at.trim_start_matches('.').to_string(),
-        written: brief(a),
-        reread: brief(b),
+        written: a.clone(),
+        reread: b.clone(),
     };
     match (a, b) {
         (Value::Object(x), Value::Object(y)) => {
@@ -326,7 +380,7 @@ fn diff_rec(
                 let (pl, al) = (path.len(), at.len());
                 path.push_str(&format!(".<{v}>"));
                 at.push_str(&format!(".<{v}>"));
-                let r = diff_rec(&x["$c"], &y["$c"], path, at, tol, tolerated, false);
+                let r = diff_rec(&x["$c"], &y["$c"], path, at, tol, tolerated, TOL_NONE);
                 path.truncate(pl);
                 at.truncate(al);
                 return r;
@@ -361,7 +415,7 @@ fn diff_rec(
                 let (pl, al) = (path.len(), at.len());
                 path.push_str("[]");
                 at.push_str(&format!("[{i}]"));
-                let r = diff_rec(va, vb, path, at, tol, tolerated, false);
+                let r = diff_rec(va, vb, path, at, tol, tolerated, TOL_NONE);
                 path.truncate(pl);
                 at.truncate(al);
                 if r.is_some() {
@@ -370,7 +424,7 @@ fn diff_rec(
             }
             if y.len() > x.len() {
                 if remainder_field {
-                    *tolerated += 1;
+                    tolerated.0 += 1;
                     return None;
                 }
                 return Some(mk("re-read array longer", path, at));
